@@ -51,9 +51,27 @@ pub fn panic_class(m: &str) -> String {
     else { "other".into() }
 }
 
+thread_local! {
+    /// ` trace=<length>,<FNV-1a hash>` of the active-edge counts recorded by the instrumented crate
+    /// (`--cfg cavint_verif`) during the last `run_impl` on this thread
+    static LAST_TRACE: std::cell::RefCell<String> = std::cell::RefCell::new(String::new());
+}
+
+/// the wire form compared with the model: outcome plus the internal active-edge trace
+pub fn wire_t(out: &TOut) -> String {
+    match out { TOut::Panic(_) => out.wire(), _ => format!("{}{}", out.wire(), LAST_TRACE.with(|t| t.borrow().clone())) }
+}
+
 pub fn run_impl(polys: &[Vec<[f64; 2]>]) -> TOut {
     let input: Vec<Vec<[f64; 2]>> = polys.to_vec();
-    match catch_unwind(AssertUnwindSafe(|| triangulate_polygon_set(input))) {
+    let r = catch_unwind(AssertUnwindSafe(|| triangulate_polygon_set(input)));
+    #[cfg(cavint_verif)]
+    {
+        let tr: Vec<usize> = cavint::core::triangulation::VERIF_ACTIVE_TRACE.with(|t| t.borrow().clone());
+        let h = tr.iter().fold(14695981039346656037u64, |h, n| (h ^ (*n as u64)).wrapping_mul(1099511628211));
+        LAST_TRACE.with(|t| *t.borrow_mut() = format!(" trace={},{}", tr.len(), h));
+    }
+    match r {
         Ok(Ok(ts)) => TOut::Ok(ts.into_iter().map(|t: Triag| t.into()).collect()),
         Ok(Err(TriangulationError::Overlap(k, p))) => TOut::Overlap(ptn(k), pt(p)),
         Ok(Err(TriangulationError::DuplicatePoint(p))) => TOut::Duplicate(pt(p)),
@@ -308,6 +326,29 @@ impl Affine {
     }
 }
 
+/// k rectangles [0,11] x [6i, 6i+5] stacked above each other, each with one or two triangular holes strictly
+/// inside (valid by construction): 4..6 active edges per band, many events on one abscissa, and at the right
+/// end of every hole an End vertex that MERGES two in-intervals (its two edges belong to different back-chains)
+fn holeband_set(r: &mut Rng) -> Vec<Vec<[f64; 2]>> {
+    let k = r.range(4, 9) as i64;
+    let mut out = vec![];
+    for i in 0..k {
+        let (y0, y1) = (6 * i, 6 * i + 5);
+        out.push(rect(0, y0, 11, y1, r.chance(0.5), r.below(4) as usize));
+        let two = r.chance(0.6);
+        for h in 0..(if two { 2 } else { 1 }) {
+            let (xa, xb) = if two { if h == 0 { (1, 5) } else { (6, 10) } } else { (1, 10) };
+            loop {
+                let t: Vec<(i64, i64)> = (0..3).map(|_| (r.range(xa, xb), r.range(y0 + 1, y1 - 1))).collect();
+                let cr = (t[1].0 - t[0].0) * (t[2].1 - t[0].1) - (t[1].1 - t[0].1) * (t[2].0 - t[0].0);
+                if cr != 0 { let mut v: Vec<[f64; 2]> = t.iter().map(|p| [p.0 as f64, p.1 as f64]).collect(); if r.chance(0.5) { v.reverse(); } out.push(v); break; }
+            }
+        }
+    }
+    for j in (1..out.len()).rev() { let m = r.below(j as u64 + 1) as usize; out.swap(j, m); }
+    out
+}
+
 fn random_soup(r: &mut Rng) -> Vec<Vec<[f64; 2]>> {
     let np = 1 + r.below(3) as usize;
     let side = *r.pick(&[3i64, 4, 6, 10]);
@@ -445,26 +486,26 @@ fn run_many_active(rep: &Mutex<Report>, counts: &Counts, rng: &mut Rng, thorough
             TOut::Panic(m) => { counts.panics.fetch_add(1, Ordering::Relaxed); rep.lock().unwrap().finding("oracle", &["C15"], &format!("panic-{}", panic_class(m)), input.clone(), m.clone()); }
             other => { counts.valid_rejected.fetch_add(1, Ordering::Relaxed); rep.lock().unwrap().finding("oracle", &["C04"], "valid-rejected", if polys.iter().map(|p| p.len()).sum::<usize>() < 400 { format!("tri {}", text(&polys)) } else { input.clone() }, other.wire()); }
         }
-        if polys.iter().map(|p| p.len()).sum::<usize>() <= 1500 && rng.chance(0.5) { model_reqs.lock().unwrap().push((request(&polys), out.wire(), text(&polys))); }
+        if polys.iter().map(|p| p.len()).sum::<usize>() <= 1500 && rng.chance(0.5) { model_reqs.lock().unwrap().push((request(&polys), wire_t(&out), text(&polys))); }
     }
 }
 
 pub fn run(o: &Opts) -> Report {
     let rep = Mutex::new(Report::new("tri"));
-    rep.lock().unwrap().rule = "EXHAUSTIVE: every vertex sequence (repeats, collinear, self-intersecting included) of 3..N points on the 4x4 integer lattice as a single polygon (N=6: 17.9M sequences, both tiers); plus structured valid sets (L, U, plus, T, comb, spiral, star, zigzag, rectangles with holes, holes with islands to depth 4, side-by-side components) under all dihedral maps, integer scalings/shears/translations, reversals, start-vertex rotations and polygon permutations; random multi-polygon soups on lattices up to 10x10; star-shaped polygons; stacked bands of 5..10 small polygons on a 12-wide lattice (up to 20 simultaneously active edges, many shared abscissae); exact axis-wise affine images v*2^e + t (e in -60..60 per axis incl. aspect ratios 2^45..2^120, translations up to 2^45 steps; the answer is mapped back exactly and judged on the lattice); zeros written as -0.0; NaN/inf/-0/subnormal/1e300 coordinates; empty and short inputs; single polygons of 3 000..40 000 (thorough: 120 000) vertices, each in a child process on a 2 MiB stack: a reflex parabola cap (one fan of n-2 triangles), the region under a sine period, a zig-zag strip, judged by triangle count and exact doubled area; grids of 400..4900 small polygons (up to 140 simultaneously active edges), nested frames to depth 14 with several children per level, combs with up to 300 teeth, in random polygon order, judged the same way; fixed overflow inputs (known findings). Non-trivial = passes input validation (>= 3 distinct finite vertices per polygon); distinct by construction of the enumeration".into();
+    rep.lock().unwrap().rule = "EXHAUSTIVE: every vertex sequence (repeats, collinear, self-intersecting included) of 3..N points on the 4x4 integer lattice as a single polygon (N=6: 17.9M sequences, both tiers); plus structured valid sets (L, U, plus, T, comb, spiral, star, zigzag, rectangles with holes, holes with islands to depth 4, side-by-side components) under all dihedral maps, integer scalings/shears/translations, reversals, start-vertex rotations and polygon permutations; random multi-polygon soups on lattices up to 10x10; star-shaped polygons; stacked bands of 5..10 small polygons on a 12-wide lattice (up to 20 simultaneously active edges, many shared abscissae); 4..9 stacked rectangles with one or two triangular holes each (up to 54 active edges, merging End vertices at shared abscissae); exact axis-wise affine images v*2^e + t (e in -60..60 per axis incl. aspect ratios 2^45..2^120, translations up to 2^45 steps; the answer is mapped back exactly and judged on the lattice); zeros written as -0.0; NaN/inf/-0/subnormal/1e300 coordinates; empty and short inputs; single polygons of 3 000..40 000 (thorough: 120 000) vertices, each in a child process on a 2 MiB stack: a reflex parabola cap (one fan of n-2 triangles), the region under a sine period, a zig-zag strip, judged by triangle count and exact doubled area; grids of 400..4900 small polygons (up to 140 simultaneously active edges), nested frames to depth 14 with several children per level, combs with up to 300 teeth, in random polygon order, judged the same way; fixed overflow inputs (known findings). Non-trivial = passes input validation (>= 3 distinct finite vertices per polygon); distinct by construction of the enumeration".into();
     let counts = Counts::default();
     if let Some(t) = &o.replay {
         // single input: `cavh tri --replay "[[[x,y],...],...]"` prints the implementation's answer and judges it
         let polys = parse_text(t.trim_start_matches("tri ")).expect("replay text");
         recording_panics();
         let out = run_impl(&polys);
-        eprintln!("impl: {}", out.wire());
+        eprintln!("impl: {}", wire_t(&out));
         judge(&polys, &out, &rep, &counts);
         let mut rep = rep.into_inner().unwrap();
         rep.cases = 1;
         let ans = run_driver_par(&o.drv, &[request(&polys)], 1);
         eprintln!("model: {}", ans[0]);
-        if ans[0].strip_suffix(" mono=0").unwrap_or(&ans[0]).strip_suffix(" links=0").unwrap_or(ans[0].strip_suffix(" mono=0").unwrap_or(&ans[0])) != out.wire() { rep.finding("model", &["C03", "C04", "C15", "C16"], "sweep-differs", format!("tri {}", t), format!("impl: {} | model: {}", out.wire(), ans[0])); }
+        if ans[0].strip_suffix(" mono=0").unwrap_or(&ans[0]).strip_suffix(" links=0").unwrap_or(ans[0].strip_suffix(" mono=0").unwrap_or(&ans[0])) != wire_t(&out) { rep.finding("model", &["C03", "C04", "C15", "C16"], "sweep-differs", format!("tri {}", t), format!("impl: {} | model: {}", wire_t(&out), ans[0])); }
         return rep;
     }
     let side = 4u64;
@@ -491,7 +532,7 @@ pub fn run(o: &Opts) -> Report {
                             counts.total.fetch_add(1, Ordering::Relaxed);
                             judge(&polys, &out, rep, counts);
                             if (idx.wrapping_mul(0xD1B54A32D192ED03).wrapping_add(seed) >> 20) % model_every == 0 {
-                                local_reqs.push((request(&polys), out.wire(), text(&polys)));
+                                local_reqs.push((request(&polys), wire_t(&out), text(&polys)));
                             }
                         }
                         idx += jobs;
@@ -519,6 +560,7 @@ pub fn run(o: &Opts) -> Report {
     for _ in 0..(if o.thorough { 2000000 } else { 200000 }) { extra.push(("soup", random_soup(&mut rng))); }
     for _ in 0..(if o.thorough { 400000 } else { 60000 }) { extra.push(("star", star_set(&mut rng))); }
     for _ in 0..(if o.thorough { 400000 } else { 60000 }) { extra.push(("bands", band_set(&mut rng))); }
+    for _ in 0..(if o.thorough { 40000 } else { 4000 }) { extra.push(("holebands", holeband_set(&mut rng))); }
     // zeros written as -0.0 half the time (the same points: -0.0 == 0.0), on sets that touch the axes
     {
         let bases = shapes();
@@ -554,7 +596,7 @@ pub fn run(o: &Opts) -> Report {
                 r.count(&format!("impl:{}", out.class()));
             }
             judge_shown(&base, &a.out_back(&out), &rep, &counts, Some(&text(&mapped)));
-            if rng.chance(0.05) { model_reqs.lock().unwrap().push((request(&mapped), out.wire(), text(&mapped))); }
+            if rng.chance(0.05) { model_reqs.lock().unwrap().push((request(&mapped), wire_t(&out), text(&mapped))); }
         }
         rep.lock().unwrap().count_n("gen:affine-exact", done);
         // KNOWN FINDINGS (known_findings.jsonl): coordinate differences that overflow binary64 make gradients
@@ -595,7 +637,7 @@ pub fn run(o: &Opts) -> Report {
             _ => {}
         }
         if crossing { counts.crossing.fetch_add(1, Ordering::Relaxed); } else { counts.valid.fetch_add(1, Ordering::Relaxed); if matches!(out, TOut::Ok(_)) { counts.valid_ok.fetch_add(1, Ordering::Relaxed); } }
-        if rng.chance(0.1) { model_reqs.lock().unwrap().push((request(&polys), out.wire(), text(&polys))); }
+        if rng.chance(0.1) { model_reqs.lock().unwrap().push((request(&polys), wire_t(&out), text(&polys))); }
     }
     run_big(&rep, &counts, o.thorough);
     run_many_active(&rep, &counts, &mut rng, o.thorough, &model_reqs);
@@ -608,14 +650,14 @@ pub fn run(o: &Opts) -> Report {
             r.cases += 1;
             r.count(&format!("gen:{}", name));
             r.count(&format!("impl:{}", out.class()));
-            if *name != "soup" && *name != "special" && *name != "extreme" && *name != "star" && *name != "bands" && *name != "negzero" && r.samples.len() < 6 { r.sample(format!("{} {} -> {}", name, text(polys), out.class())); }
+            if *name != "soup" && *name != "special" && *name != "extreme" && *name != "star" && *name != "bands" && *name != "holebands" && *name != "negzero" && r.samples.len() < 6 { r.sample(format!("{} {} -> {}", name, text(polys), out.class())); }
         }
         judge(polys, &out, &rep, &counts);
         // coordinates whose differences overflow produce NaN ordinates/gradients; `f64::total_cmp` then
         // depends on the SIGN of the NaN, which Lean's `Float` cannot observe: such inputs are judged by
         // the implementation-side oracle (no panic, error classification) only
         let overflowing = polys.iter().flatten().any(|v| v[0].abs() > 8e307 || v[1].abs() > 8e307);
-        if !overflowing && ((*name != "soup" && *name != "extreme" && *name != "star" && *name != "bands" && *name != "negzero") || rng.chance(if *name == "bands" { 0.2 } else { 0.05 })) { model_reqs.lock().unwrap().push((request(polys), out.wire(), text(polys))); }
+        if !overflowing && ((*name != "soup" && *name != "extreme" && *name != "star" && *name != "bands" && *name != "holebands" && *name != "negzero") || rng.chance(if *name == "bands" || *name == "holebands" { 0.2 } else { 0.05 })) { model_reqs.lock().unwrap().push((request(polys), wire_t(&out), text(polys))); }
     }
     let mut rep = rep.into_inner().unwrap();
     rep.nontrivial = counts.valid.load(Ordering::Relaxed) + counts.crossing.load(Ordering::Relaxed);
